@@ -66,7 +66,7 @@ func (p *storeProp) Rule() string {
 func (p *storeProp) Components() map[string][]string {
 	return map[string][]string{
 		"real":        {"content/memory", "content/oci (Store, Storage, ReadOnlyStore; real tmpfs I/O)", "content/file", "internal/graph", "internal/resolver", "internal/cas", "internal/fs/tarfs"},
-		"substituted": {"sync primitives (scheduler-controlled)", "os (pass-through, counted; budget turns an endless loop into a deterministic outcome)", "map iteration order (canonical or tape-shuffled)"},
+		"substituted": {"sync primitives (scheduler-controlled)", "os (pass-through to tmpfs, counted; budget turns an endless loop into a deterministic outcome; the k-th mutating operation can fail with EIO)", "map iteration order (canonical or tape-shuffled)"},
 		"stub":        {"reference model (content map + tag map + index bookkeeping) in the harness"},
 	}
 }
@@ -75,7 +75,8 @@ func (p *storeProp) Assumptions() []string {
 	return []string{
 		"universe has one node per digest (no identical bytes under two media types) because the OCI layout and file store key content by digest",
 		"references are plain tags, never a node's digest string (except the explicit Resolve-by-digest comparison of C08)",
-		"file-store names are distinct clean relative paths",
+		"file-store names are clean relative paths; several blobs may claim one name (the store must then refuse all but one)",
+		"after an injected disk error (C08) only the validity of the layout on disk is judged, not the agreement of the live and a reopened store",
 		"porcupine Unknown (timeout) is inconclusive and never reported",
 	}
 }
